@@ -234,4 +234,6 @@ def check(ctx):
     ctx.run('C09.R2', 'restart path: no return, no resource use, no tail writes, NotStarted stored, lock held; multishot only when !has_next()', r2_pure_restart)
     ctx.run('C09.R3', 'single submit site in the NotStarted arm over the same data.tail places', r3_same_submission)
     ctx.run('C09.R4', 'LIFE-6: resubmission stores a fresh O::empty() container under the lock', life.life6)
+    from . import c13
+    ctx.run('C09.R6', 're-issued requests carry the same target flags: every submit site applies OpTarget::set_flags after fill_submission (=C13.R4)', c13.r4_fixed_file)
     ctx.run('C09.R5', 'LIFE-4: the restart arm (Done) is only reachable after the final completion of the previous attempt, so no late completion of attempt k can be taken for attempt k+1', life.life4)
